@@ -14,300 +14,408 @@ The numeric range of the proportional shares is not decided.
 from __future__ import annotations
 
 import ast
-import re
+from typing import Any
 
 from ..engine.cfg import CFG
+from ..engine.normalize import positional
 from ..engine.report import AnalysisError, Run
-from ..engine.resolver import Program, body_walk, walk_no_nested
+from ..engine.resolver import FuncInfo, Program, body_walk
 from ..engine.terms import Poly, TermEval
-from ..engine.util import find_calls, method_call, node_has_call, nodes_with_call, u
-from .c01 import BDA, BM, MOD, Ledgers
+from ..engine.util import find_calls, method_call, nodes_with_call, u
+from ._c02_util import (BDA, BM, MOD, MinMax, Region, Roles, all_calls, at, at_least, callee, ctor_args,
+                        discover_roles, fields_of, is_zero, nonzero_established, prep, regions, writes)
 
 
-def _is_zero_test(test: ast.AST, operand_pred) -> tuple[bool, bool] | None:
-    """If `test` (possibly a disjunction) contains is_close_to_zero(X) with operand_pred(X):
-    returns (found, zero_side_is_true)."""
-    for x in ast.walk(test):
-        if isinstance(x, ast.Call) and u(x.func) in ("is_close_to_zero", "math.isclose") and x.args \
-                and operand_pred(x.args[0]):
-            return True, True
-        if isinstance(x, ast.Compare) and len(x.ops) == 1 and operand_pred(x.left) \
-                and u(x.comparators[0]) in ("0", "0.0") and isinstance(x.ops[0], (ast.Eq, ast.LtE)):
-            return True, True
+# --------------------------------------------------------------------------------------------- shapes
+def _sub(e: ast.AST, base: str, index: str | None = None) -> bool:
+    """`e` is `<base>[<index>]` (index None: any)."""
+    return isinstance(e, ast.Subscript) and u(e.value) == base and (index is None or u(e.slice) == index)
+
+
+def _over(e: ast.AST, fn: str, table: str, domain: str) -> bool:
+    """`e` is `<fn>(<table>[v] for v in <domain>)` (generator or list, one clause, no filter)."""
+    if not (isinstance(e, ast.Call) and u(e.func) == fn and len(e.args) == 1 and not e.keywords
+            and isinstance(e.args[0], (ast.GeneratorExp, ast.ListComp))):
+        return False
+    g = e.args[0]
+    if len(g.generators) != 1 or g.generators[0].ifs or g.generators[0].is_async:
+        return False
+    c = g.generators[0]
+    return isinstance(c.target, ast.Name) and u(c.iter) == domain and _sub(g.elt, table, c.target.id)
+
+
+def _two(e: ast.AST, fn: str) -> list[ast.AST] | None:
+    if isinstance(e, ast.Call) and u(e.func) == fn and len(e.args) == 2 and not e.keywords \
+            and not any(isinstance(a, ast.Starred) for a in e.args):
+        return list(e.args)
     return None
 
 
+def _either(args: list[ast.AST] | None, p1: Any, p2: Any) -> bool:
+    return args is not None and ((p1(args[0]) and p2(args[1])) or (p1(args[1]) and p2(args[0])))
+
+
+class _PowTerms:
+    """Term evaluator that keeps `pow(a, b)` / `a ** b` as one registered atom."""
+
+    def __init__(self) -> None:
+        self.reg: dict[str, tuple[ast.AST, ast.AST]] = {}
+        self.te = TermEval(atom_hook=self._hook)
+
+    def _hook(self, e: ast.AST, _te: TermEval) -> Poly | None:
+        a = b = None
+        if isinstance(e, ast.Call) and u(e.func) in ("pow", "math.pow") and len(e.args) == 2 and not e.keywords:
+            a, b = e.args
+        elif isinstance(e, ast.BinOp) and isinstance(e.op, ast.Pow):
+            a, b = e.left, e.right
+        if a is None or b is None:
+            return None
+        name = f"pow({u(a)}, {u(b)})"
+        self.reg[name] = (a, b)
+        return Poly.atom(name)
+
+
+def _ratio_table(args: dict[str, ast.AST]) -> str | None:
+    """The table T such that the record's ratio is `k * pow(T[<battery id of the record>], exponent)`:
+    every monomial of the ratio carries that one power, so no headroom means ratio zero."""
+    if "ratio" not in args or "battery_id" not in args:
+        return None
+    pt = _PowTerms()
+    poly = pt.te.ev(args["ratio"])
+    if len(pt.reg) != 1 or poly.is_zero():
+        return None
+    (name, (base, expo)), = pt.reg.items()
+    if not all(any(a == name and n == 1 for a, n in mono) for mono in poly.terms):
+        return None
+    if not (isinstance(base, ast.Subscript) and isinstance(base.value, ast.Name)
+            and u(base.slice) == u(args["battery_id"]) and u(expo) == "self._distributor_exponent"):
+        return None
+    return base.value.id
+
+
+def _records(prog: Program, arn: FuncInfo, regs: list[Region]) -> list[tuple[Region, Any, Any, dict[str, ast.AST]]]:
+    fields = fields_of(prog, f"{MOD}:AvailabilityRatio")
+    out = []
+    for r, p, e in all_calls(regs, "AvailabilityRatio"):
+        out.append((r, p, e, ctor_args(e.node, fields, arn.qual)))
+    if not out:
+        raise AnalysisError(f"{arn.qual}: no AvailabilityRatio record is built")
+    return out
+
+
+def _headroom_table(prog: Program):
+    def find(arn: FuncInfo, regs: list[Region]) -> str | None:
+        tabs = {_ratio_table(a) for _r, _p, _e, a in _records(prog, arn, regs)}
+        # not one table: C02.AVAIL reports the shape of the ratio; the headroom role stays unbound
+        return next(iter(tabs)) if len(tabs) == 1 else None
+    return find
+
+
+_ROLES: list[Any] = []          # [program, roles] of the program analysed last
+
+
+def _roles(prog: Program) -> Roles:
+    if not _ROLES or _ROLES[0] is not prog:
+        _ROLES[:] = [prog, discover_roles(prog, _headroom_table(prog))]
+    return _ROLES[1]
+
+
+# --------------------------------------------------------------------------------------------- CAP
 def check_cap(run: Run, prog: Program) -> None:
-    te = TermEval()
-    gr = prog.func(f"{BDA}._greedy_distribute_remaining_power")
+    roles = _roles(prog)
+    pf = fields_of(prog, f"{MOD}:_Power")
+    if "power" not in pf or "upper_bound" not in pf:
+        raise AnalysisError(f"{MOD}:_Power: fields power / upper_bound not found")
+    # ---- greedy top-up: every change of a cell's power is capped by that cell's own upper bound and
+    #      happens only after the cell's allocation was found to be non-zero
+    gr = prep(prog, f"{BDA}._greedy_distribute_remaining_power")
     run.analysed(gr.qual)
-    lg = Ledgers(gr)
     n = 0
-    for suite in lg.suites:
-        for s, delta in lg.cell_deltas(suite):
-            if delta.is_zero():
-                continue
-            n += 1
-            # the increment must be a local defined as min(<cell>.upper_bound - <cell>.power, ...)
-            cell = u(s.target.value) if isinstance(s, ast.AugAssign) and isinstance(s.target, ast.Attribute) else None  # type: ignore[union-attr]
-            val = s.value if isinstance(s, ast.AugAssign) else None
-            if isinstance(val, ast.Name):
-                defs = [d for d in suite if isinstance(d, ast.Assign) and u(d.targets[0]) == val.id]
-                val = defs[-1].value if defs else val
-            ok = False
-            if cell and isinstance(val, ast.Call) and u(val.func) == "min":
-                head = Poly.atom(f"{cell}.upper_bound") - Poly.atom(f"{cell}.power")
-                ok = any(te.ev(a) == head for a in val.args) and len(val.args) >= 2
-            run.check(ok, "C02.CAP", gr.qual, s,
-                      "an allocation is topped up by an amount that is not capped by "
-                      "`upper_bound - power` of that same cell: the group can exceed its inclusion "
-                      "bound", node=s, file=gr.file)
+    for r in regions(gr.node):
+        for p, _st in r.paths:
+            touched: set[str] = set()
+            for e in p.effects:
+                if e.kind == "call" and callee(e.node) == "_Power":
+                    a = ctor_args(e.node, pf, gr.qual)  # type: ignore[arg-type]
+                    if not ("power" in a and is_zero(a["power"])):
+                        n += 1
+                        run.violation("C02.CAP", gr.qual, f"{u(e.node)}",
+                                      "the top-up creates a new allocation cell with a non-zero power: the "
+                                      "amount is not capped by `upper_bound - power` of an existing cell",
+                                      node=at(e.lineno), file=gr.file)
+                if e.kind != "write":
+                    continue
+                tgt, val = e.node.elts  # type: ignore[attr-defined]
+                if not isinstance(tgt, ast.Attribute) or tgt.attr not in ("power", "upper_bound"):
+                    continue
+                cell = u(tgt.value)
+                text = f"{u(tgt)} = {u(val)}"
+                if tgt.attr == "upper_bound":
+                    run.violation("C02.CAP", gr.qual, text, "the top-up rewrites a group's cap", node=at(e.lineno),
+                                  file=gr.file)
+                    continue
+                if cell in touched:
+                    raise AnalysisError(f"{gr.qual}: line {e.lineno}: a cell's power is written twice on one path")
+                touched.add(cell)
+                mm = MinMax()
+                new = mm.ev(val)
+                if new == Poly.atom(f"{cell}.power"):
+                    continue
+                n += 1
+                run.check(mm.capped(new, Poly.atom(f"{cell}.upper_bound")), "C02.CAP", gr.qual, text,
+                          "an allocation is topped up by an amount that is not capped by "
+                          "`upper_bound - power` of that same cell: the group can exceed its inclusion "
+                          "bound", node=at(e.lineno), file=gr.file,
+                          instance=f"{gr.qual}: top-up increment is min(upper_bound - power, ...) of the same cell")
+                run.check(nonzero_established(p, f"{cell}.power"), "C02.AVAIL", gr.qual, text,
+                          "the greedy top-up can add power to a set whose allocation is zero (no SoC "
+                          "headroom / no capacity): the `power.power ≈ 0 → skip` guard is missing",
+                          node=at(e.lineno), file=gr.file, path=p.describe(),
+                          instance=f"{gr.qual}: top-up skips zero-allocation sets")
     if n < 1:
         raise AnalysisError(f"{gr.qual}: no top-up increment found")
-    # top-up skips cells that hold zero (no availability) and stops when nothing remains
-    cfg = CFG(gr.node, gr.file)
-    incs = [x.id for x in cfg.nodes if x.kind == "stmt" and isinstance(x.ast, ast.AugAssign)
-            and isinstance(x.ast.target, ast.Attribute) and x.ast.target.attr == "power"]
-    for inc in incs:
-        cell = u(cfg.nodes[inc].ast.target.value)  # type: ignore[union-attr]
-        guards = []
-        for t in cfg.nodes:
-            if t.kind != "test" or t.ast is None:
-                continue
-            hit = _is_zero_test(t.ast, lambda e, c=cell: u(e) == f"{c}.power")
-            if hit:
-                # increment must not be reachable through the zero side within the iteration
-                zero_side = [m for m, lab in cfg.succ[t.id] if lab == "true"]
-                loops = [h.id for h in cfg.nodes if h.kind == "for"]
-                if not any(inc in cfg.reachable([z], avoid=loops) for z in zero_side):
-                    guards.append(t.id)
-        wit = cfg.path(cfg.entry, [inc], avoid=guards)
-        run.check(bool(guards) and wit is None, "C02.AVAIL", gr.qual, cfg.nodes[inc].ast,
-                  "the greedy top-up can add power to a set whose allocation is zero (no SoC "
-                  "headroom / no capacity): the `power.power ≈ 0 → skip` guard is missing",
-                  node=cfg.nodes[inc].ast, file=gr.file, path=cfg.describe_path(wit),
-                  instance=f"{gr.qual}: top-up skips zero-allocation sets")
 
-    # cell creation in _distribute_power
-    dp = prog.func(f"{BDA}._distribute_power")
+    # ---- cell creation in _distribute_power
+    dp = prep(prog, f"{BDA}._distribute_power")
     run.analysed(dp.qual)
-    creations = [c for c in find_calls(dp.node, lambda c: u(c.func) == "_Power")]
-    nonzero = []
-    for c in creations:
-        kws = {k.arg: k.value for k in c.keywords}
-        if te.ev(kws["power"]).is_zero() and te.ev(kws["upper_bound"]).is_zero():
-            continue
-        nonzero.append((c, kws))
-    if len(nonzero) != 1:
-        raise AnalysisError(f"{dp.qual}: expected one non-zero _Power creation, found {len(nonzero)}")
-    c, kws = nonzero[0]
-    ub = kws["upper_bound"]
-    ubdef = ub
-    if isinstance(ub, ast.Name):
-        ds = [s for s in body_walk(dp.node) if isinstance(s, ast.Assign) and u(s.targets[0]) == ub.id]
-        ubdef = ds[-1].value if ds else ub
-    loopvar = None
-    for s in body_walk(dp.node):
-        if isinstance(s, ast.For) and any(x is c for x in ast.walk(s)):
-            loopvar = u(s.target)
-    ok = False
-    if isinstance(ubdef, ast.Call) and u(ubdef.func) == "min" and len(ubdef.args) == 2 and loopvar:
-        txt = sorted(u(a).replace(" ", "") for a in ubdef.args)
-        want = sorted([f"incl_bounds[{loopvar}.battery_id]",
-                       f"sum((incl_bounds[inverter_id]forinverter_idin{loopvar}.inverter_ids))"])
-        ok = txt == want
-    run.check(ok, "C02.CAP", dp.qual, f"upper_bound = {u(ubdef)}",
-              "a group's cap is not min(Σ inverter inclusion bounds, battery inclusion bound)",
-              node=c, file=dp.file)
-    ok = u(kws["power"]) == f"{loopvar}.min_power"
-    run.check(ok, "C02.CAP", dp.qual, f"power = {u(kws['power'])}",
-              "a group's initial allocation is not its minimum power", node=c, file=dp.file)
-    # min_power definition
-    ar = prog.func(f"{BDA}._compute_battery_availability_ratio")
+    incl = roles.dp["incl"]
+    nonzero = _nonzero_creations(prog, dp, pf)
+    for r, _p, e, a, elem in nonzero:
+        ub, pw = a["upper_bound"], a["power"]
+        ok = elem is not None and _either(
+            _two(ub, "min"), lambda x: _sub(x, incl, f"{elem}.battery_id"),
+            lambda x: _over(x, "sum", incl, f"{elem}.inverter_ids"))
+        run.check(ok, "C02.CAP", dp.qual, f"upper_bound = {u(ub)}",
+                  "a group's cap is not min(Σ inverter inclusion bounds, battery inclusion bound)",
+                  node=at(e.lineno), file=dp.file,
+                  instance=f"{dp.qual}: cell cap = min(Σ inverter inclusion, battery inclusion) of the loop element")
+        ok = elem is not None and u(pw) == f"{elem}.min_power"
+        run.check(ok, "C02.CAP", dp.qual, f"power = {u(pw)}",
+                  "a group's initial allocation is not its minimum power", node=at(e.lineno), file=dp.file,
+                  instance=f"{dp.qual}: cell starts at the loop element's min_power")
+    # ---- min_power definition
+    ar = prep(prog, f"{BDA}._compute_battery_availability_ratio")
     run.analysed(ar.qual)
-    ctor = find_calls(ar.node, lambda c: u(c.func) == "AvailabilityRatio")
-    ok = False
-    if len(ctor) == 1:
-        mp = {k.arg: k.value for k in ctor[0].keywords}.get("min_power")
-        if isinstance(mp, ast.Call) and u(mp.func) == "max" and len(mp.args) == 2:
-            txt = sorted(u(a).replace(" ", "") for a in mp.args)
-            ok = txt == sorted(["excl_bounds[battery.component_id]",
-                                "min((excl_bounds[inverter_id]forinverter_idininverter_ids))"])
-    run.check(ok, "C02.CAP", ar.qual, "min_power = max(excl[battery], min_i excl[inverter_i])",
-              "a group's minimum power is not max(battery exclusion bound, smallest inverter "
-              "exclusion bound): allocations can fall inside an exclusion zone", node=ar.node,
-              file=ar.file)
+    excl = roles.ar["excl"]
+    for _r, _p, e, a in _records(prog, ar, regions(ar.node)):
+        mp = a.get("min_power")
+        ok = mp is not None and "battery_id" in a and "inverter_ids" in a and _either(
+            _two(mp, "max"), lambda x: _sub(x, excl, u(a["battery_id"])),
+            lambda x: _over(x, "min", excl, u(a["inverter_ids"])))
+        run.check(ok, "C02.CAP", ar.qual, "min_power = max(excl[battery], min_i excl[inverter_i])",
+                  "a group's minimum power is not max(battery exclusion bound, smallest inverter "
+                  "exclusion bound): allocations can fall inside an exclusion zone", node=at(e.lineno),
+                  file=ar.file, instance=f"{ar.qual}: min_power = max(excl[battery], min_i excl[inverter_i])")
 
 
+def _nonzero_creations(prog: Program, dp: FuncInfo, pf: list[str]):
+    """(_Power creations that are not the all-zero cell) with the element of the allocation loop they
+    belong to (None when they are outside a loop over the availability records)."""
+    out = []
+    for r, p, e in all_calls(regions(dp.node), "_Power"):
+        a = ctor_args(e.node, pf, dp.qual)
+        if "power" not in a or "upper_bound" not in a:
+            raise AnalysisError(f"{dp.qual}: line {e.lineno}: _Power(...) without cap / power")
+        if is_zero(a["power"]) and is_zero(a["upper_bound"]):
+            continue
+        elem = None
+        if r.kind == "loop" and r.element() is not None and r.headers and all(
+                isinstance(h, ast.Subscript) and isinstance(h.slice, ast.Constant) and h.slice.value == 0
+                and callee(h.value) == "self._compute_battery_availability_ratio" for h in r.headers):
+            elem = r.element()
+        out.append((r, p, e, a, elem))
+    if not out:
+        raise AnalysisError(f"{dp.qual}: no non-zero _Power creation found")
+    return out
+
+
+# --------------------------------------------------------------------------------------------- INV
 def check_inv(run: Run, prog: Program) -> None:
-    fn = prog.func(f"{BDA}._distribute_multi_inverter_pairs")
+    roles = _roles(prog)
+    fn = prep(prog, f"{BDA}._distribute_multi_inverter_pairs")
     run.analysed(fn.qual)
-    cfg = CFG(fn.node, fn.file)
-    lg = Ledgers(fn)
-    te = TermEval()
-    stores = [n for n in cfg.nodes if n.kind == "stmt" and isinstance(n.ast, ast.Assign)
-              and isinstance(n.ast.targets[0], ast.Subscript) and u(n.ast.targets[0].value) in lg.cell_dicts]
-    if len(stores) < 3:
-        raise AnalysisError(f"{fn.qual}: expected >=3 set-point stores, found {len(stores)}")
-    for n in stores:
-        s = n.ast
-        key = u(s.targets[0].slice)  # type: ignore[union-attr]
-        val = s.value  # type: ignore[union-attr]
-        vdef = val
-        if isinstance(val, ast.Name):
-            defs = [d for d in body_walk(fn.node) if isinstance(d, ast.Assign) and u(d.targets[0]) == val.id]
-            vdef = defs[-1].value if defs else val
-        if te.ev(vdef).is_zero():
-            run.ok("C02.INV", f"{fn.qual}: `{n.text(60)}` stores zero")
-            continue
-        if isinstance(vdef, ast.Attribute) and vdef.attr == "power":
-            # single inverter: the whole (already capped) group allocation
-            single = [t for t in cfg.nodes if t.kind == "test" and "len(" in t.label and "== 1" in t.label]
-            wit = cfg.path(cfg.entry, [n.id], avoid=[t.id for t in single])
-            run.check(bool(single) and wit is None, "C02.INV", fn.qual, s,
-                      "a whole group allocation is assigned to one inverter outside the "
-                      "single-inverter case", node=s, file=fn.file)
-            continue
-        comp = sorted(lg.complements)
-        ok_val = isinstance(vdef, ast.Call) and u(vdef.func) == "min" and len(vdef.args) == 2 and sorted(
-            u(a) for a in vdef.args) == sorted([f"incl_bounds[{key}]", comp[0] if comp else "?"])
-        run.check(ok_val, "C02.INV", fn.qual, f"{u(s.targets[0])} = {u(vdef)}",  # type: ignore[union-attr]
-                  "a non-zero inverter set-point is not min(inclusion bound of that inverter, "
-                  "remaining group power)", node=s, file=fn.file)
-        # guard: excl_bounds[key] <= remaining on the path
-        guards = []
-        for t in cfg.nodes:
-            if t.kind != "test" or t.ast is None:
-                continue
-            for x in ast.walk(t.ast):
-                if isinstance(x, ast.Compare) and len(x.ops) == 1:
-                    l, r, op = u(x.left), u(x.comparators[0]), x.ops[0]
-                    if (l == f"excl_bounds[{key}]" and comp and r == comp[0] and isinstance(op, (ast.LtE, ast.Lt))) or (
-                            r == f"excl_bounds[{key}]" and comp and l == comp[0] and isinstance(op, (ast.GtE, ast.Gt))):
-                        # must be a conjunct (not under `or`)
-                        if not any(isinstance(b, ast.BoolOp) and isinstance(b.op, ast.Or)
-                                   for b in ast.walk(t.ast)):
-                            f_side = [m for m, lab in cfg.succ[t.id] if lab == "false"]
-                            if not any(n.id in cfg.reachable([f], avoid=[h.id for h in cfg.nodes if h.kind == "for"])
-                                       for f in f_side):
-                                guards.append(t.id)
-        wit = cfg.path(cfg.entry, [n.id], avoid=guards)
-        run.check(bool(guards) and wit is None, "C02.INV", fn.qual, f"guard of {u(s.targets[0])}",  # type: ignore[union-attr]
-                  "a non-zero inverter set-point is stored without the guard `excl_bounds[i] <= "
-                  "remaining`: an inverter can be commanded inside its exclusion zone",
-                  node=s, file=fn.file, path=cfg.describe_path(wit))
+    incl, excl = roles.mip["incl"], roles.mip["excl"]
+    outs = set()
+    for r in body_walk(fn.node):
+        if isinstance(r, ast.Return):
+            if not (isinstance(r.value, ast.Tuple) and r.value.elts and isinstance(r.value.elts[0], ast.Name)):
+                raise AnalysisError(f"{fn.qual}: result is not (set-point table, undistributed): {u(r)}")
+            outs.add(r.value.elts[0].id)
+    if len(outs) != 1:
+        raise AnalysisError(f"{fn.qual}: set-point table not identified from the returns ({sorted(outs)})")
+    out = next(iter(outs))
+    sites: set[tuple[int, str]] = set()
+    for r in regions(fn.node):
+        for p, _st in r.paths:
+            for e, tgt, val in writes(p, lambda t, _v: _sub(t, out)):
+                idx = u(tgt.slice)  # type: ignore[attr-defined]
+                text = f"{u(tgt)} = {u(val)}"
+                if is_zero(val):
+                    sites.add((e.lineno, "zero"))
+                    run.ok("C02.INV", f"{fn.qual}: a store that is not guarded stores zero")
+                    continue
+                if isinstance(val, ast.Attribute) and val.attr == "power":
+                    # single inverter: the whole (already capped) group allocation
+                    sites.add((e.lineno, "whole"))
+                    ok = any(c == u(val.value) and p.outcome(("==", frozenset({f"len({k})", "1"}))) is True
+                             for k, c in r.cell_pairs())
+                    run.check(ok, "C02.INV", fn.qual, text,
+                              "a whole group allocation is assigned to one inverter outside the "
+                              "single-inverter case", node=at(e.lineno), file=fn.file, path=p.describe(),
+                              instance=f"{fn.qual}: whole allocation only to the inverter of a one-inverter set")
+                    continue
+                sites.add((e.lineno, "split"))
+                args = _two(val, "min")
+                rem = None
+                if args is not None:
+                    for a, b in ((args[0], args[1]), (args[1], args[0])):
+                        if _sub(a, incl, idx) and isinstance(b, ast.Name):
+                            rem = b.id
+                run.check(rem is not None, "C02.INV", fn.qual, text,
+                          "a non-zero inverter set-point is not min(inclusion bound of that inverter, "
+                          "remaining group power)", node=at(e.lineno), file=fn.file,
+                          instance=f"{fn.qual}: split set-point = min(incl[i], remaining)")
+                if rem is None:
+                    continue
+                # the remaining group power is what is left after this store
+                left = p.env.get(rem)
+                te = TermEval()
+                ok = left is not None and te.ev(left) == Poly.atom(rem) - te.ev(val)
+                run.check(ok, "C02.INV", fn.qual, f"{rem} after {text}",
+                          f"`{rem}` is not reduced by exactly the set-point just stored, so it is not the "
+                          "remaining group power the next inverter's guard and cap refer to",
+                          node=at(e.lineno), file=fn.file, path=p.describe(),
+                          instance=f"{fn.qual}: remaining power reduced by the stored set-point")
+                run.check(at_least(p, f"{excl}[{idx}]", rem), "C02.INV", fn.qual, f"guard of {text}",
+                          "a non-zero inverter set-point is stored without the guard `excl_bounds[i] <= "
+                          "remaining`: an inverter can be commanded inside its exclusion zone",
+                          node=at(e.lineno), file=fn.file, path=p.describe(),
+                          instance=f"{fn.qual}: split set-point guarded by excl[i] <= remaining")
+    if len(sites) < 3 or not any(k == "split" for _l, k in sites):
+        raise AnalysisError(f"{fn.qual}: expected >=3 set-point stores incl. the per-inverter split, found "
+                            f"{sorted(sites)}")
 
 
+# --------------------------------------------------------------------------------------------- AVAIL
 def check_avail(run: Run, prog: Program) -> None:
-    te = TermEval()
-    for fname, want in (("_distribute_consume_power", ("battery.soc_upper_bound", "battery.soc")),
-                        ("_distribute_supply_power", ("battery.soc", "battery.soc_lower_bound"))):
-        fn = prog.func(f"{BDA}.{fname}")
+    roles = _roles(prog)
+    for fname, want in (("_distribute_consume_power", ("soc_upper_bound", "soc")),
+                        ("_distribute_supply_power", ("soc", "soc_lower_bound"))):
+        fn = prep(prog, f"{BDA}.{fname}")
         run.analysed(fn.qual)
-        stores = [s for s in body_walk(fn.node) if isinstance(s, ast.Assign)
-                  and isinstance(s.targets[0], ast.Subscript) and u(s.targets[0].value) == "available_soc"]
-        ok = len(stores) == 1
-        if ok:
-            v = stores[0].value
-            ok = isinstance(v, ast.Call) and u(v.func) == "max" and len(v.args) == 2 and any(
-                te.ev(a).is_zero() for a in v.args) and any(
-                te.ev(a) == Poly.atom(want[0]) - Poly.atom(want[1]) for a in v.args) \
-                and u(stores[0].targets[0].slice) == "battery.component_id"  # type: ignore[union-attr]
-        run.check(ok, "C02.AVAIL", fn.qual, f"available_soc[battery] = max(0.0, {want[0]} - {want[1]})",
+        table = roles.headroom.get(fname)
+        if table is None:
+            run.violation("C02.AVAIL", fn.qual, "headroom table handed to _distribute_power",
+                          "the table that carries the SoC headroom into the availability ratio cannot be "
+                          "identified (the ratio is not a power of one headroom table)", node=fn.node, file=fn.file)
+            continue
+        stores = []
+        for r in regions(fn.node):
+            for p, _st in r.paths:
+                stores.extend(writes(p, lambda t, _v: _sub(t, table)))
+        ok = bool(stores)
+        for _e, tgt, val in stores:
+            key = tgt.slice  # type: ignore[attr-defined]
+            if not (isinstance(key, ast.Attribute) and key.attr == "component_id"):
+                ok = False
+                continue
+            bat = u(key.value)
+            mm = MinMax()
+            got = mm.clamp(mm.ev(val))
+            ok = ok and got is not None and got[0] == "max" and len(got[1]) == 2 and any(
+                a.is_zero() for a in got[1]) and any(
+                a == Poly.atom(f"{bat}.{want[0]}") - Poly.atom(f"{bat}.{want[1]}") for a in got[1])
+        run.check(ok, "C02.AVAIL", fn.qual, f"headroom[battery] = max(0.0, battery.{want[0]} - battery.{want[1]})",
                   "the SoC headroom in the requested direction is not clamped at zero / uses the "
                   "wrong limit: a battery at or beyond its SoC limit keeps a positive share",
-                  node=fn.node, file=fn.file)
-        # the same dict reaches _distribute_power
-        calls = find_calls(fn.node, lambda c: method_call(c, "self", "_distribute_power"))
-        ok = len(calls) == 1 and len(calls[0].args) >= 3 and u(calls[0].args[2]) == "available_soc"
-        run.check(ok, "C02.AVAIL", fn.qual, "available_soc handed to _distribute_power",
-                  "the clamped headroom is not what the allocation routine receives", node=fn.node,
-                  file=fn.file)
+                  node=fn.node, file=fn.file,
+                  instance=f"{fn.qual}: headroom[battery] = max(0, {want[0]} - {want[1]})")
+        # that this table is what _distribute_power receives as headroom is how it was identified
+        run.ok("C02.AVAIL", f"{fn.qual}: the clamped headroom table is handed to _distribute_power")
     # ratio is built from that availability
-    ar = prog.func(f"{BDA}._compute_battery_availability_ratio")
-    txt = u(ar.node).replace(" ", "")
-    ok = "pow(available_soc[battery.component_id],self._distributor_exponent)" in txt and \
-        "ratio=capacity_ratio*soc_factor" in txt
-    run.check(ok, "C02.AVAIL", ar.qual, "ratio = capacity_ratio * available_soc ** exponent",
-              "a set's availability ratio is not proportional to a power of its own SoC headroom "
-              "(zero headroom must give ratio zero)", node=ar.node, file=ar.file)
+    ar = prep(prog, f"{BDA}._compute_battery_availability_ratio")
+    for _r, _p, e, a in _records(prog, ar, regions(ar.node)):
+        run.check(_ratio_table(a) is not None and _ratio_table(a) == roles.ar.get("avail"), "C02.AVAIL", ar.qual,
+                  "ratio = capacity_ratio * available_soc ** exponent",
+                  "a set's availability ratio is not proportional to a power of its own SoC headroom "
+                  "(zero headroom must give ratio zero)", node=at(e.lineno), file=ar.file,
+                  instance=f"{ar.qual}: ratio = k * pow(headroom[own battery], exponent)")
     # every non-zero cell creation in the main loop depends on the element's own ratio
-    dp = prog.func(f"{BDA}._distribute_power")
-    cfg = CFG(dp.node, dp.file)
-    loops = [h for h in cfg.nodes if h.kind == "for" and u(h.ast.iter) == "battery_availability_ratio"]  # type: ignore[union-attr]
-    if len(loops) != 1:
-        raise AnalysisError(f"{dp.qual}: allocation loop over battery_availability_ratio not found")
-    h = loops[0]
-    lv = u(h.ast.target)  # type: ignore[union-attr]
-    body = cfg.reachable([m for m, lab in cfg.succ[h.id] if lab == "iter"], avoid=[h.id])
-    creations = []
-    for x in body:
-        n = cfg.nodes[x]
-        if n.kind == "stmt" and node_has_call(cfg, x, lambda c: u(c.func) == "_Power"):
-            c = find_calls(n.ast, lambda c: u(c.func) == "_Power")[0]  # type: ignore[arg-type]
-            kws = {k.arg: k.value for k in c.keywords}
-            if not te.ev(kws["power"]).is_zero():
-                creations.append(n)
-    if not creations:
-        raise AnalysisError(f"{dp.qual}: no non-zero allocation in the loop")
-    for n in creations:
-        guards = []
-        for t in body:
-            tn = cfg.nodes[t]
-            if tn.kind != "test" or tn.ast is None:
-                continue
-            hit = _is_zero_test(tn.ast, lambda e: u(e) == f"{lv}.ratio")
-            if not hit:
-                continue
-            # zero side (true) must not reach the creation within the iteration
-            zero_side = [m for m, lab in cfg.succ[t] if lab == "true"]
-            if any(n.id in cfg.reachable([z], avoid=[h.id]) for z in zero_side):
-                continue
-            # on the zero side a zero cell is stored for the set
-            guards.append(t)
-        first = [m for m, lab in cfg.succ[h.id] if lab == "iter"][0]
-        wit = cfg.path(first, [n.id], avoid=guards + [h.id]) if first not in guards else None
-        run.check(bool(guards) and wit is None, "C02.AVAIL", dp.qual, n.ast,
-                  f"an inverter set receives a non-zero allocation ({lv}.min_power) on a path that "
-                  f"never tests that set's own availability `{lv}.ratio`: the only zero-test in the "
+    dp = prep(prog, f"{BDA}._distribute_power")
+    pf = fields_of(prog, f"{MOD}:_Power")
+    for _r, p, e, a, elem in _nonzero_creations(prog, dp, pf):
+        ok = elem is not None and nonzero_established(p, f"{elem}.ratio")
+        run.check(ok, "C02.AVAIL", dp.qual, u(e.node),
+                  f"an inverter set receives a non-zero allocation ({u(a['power'])}) on a path that "
+                  f"never tests that set's own availability `{elem}.ratio`: the only zero-test in the "
                   "loop looks at the remaining *total* ratio, so a battery with no SoC headroom "
                   "(ratio 0) that is not last in the order is still charged/discharged",
-                  node=n.ast, file=dp.file, path=cfg.describe_path(wit),
-                  instance=f"{dp.qual}: non-zero allocation depends on {lv}.ratio")
+                  node=at(e.lineno), file=dp.file, path=p.describe(),
+                  instance=f"{dp.qual}: non-zero allocation depends on the loop element's own ratio")
+
+
+# --------------------------------------------------------------------------------------------- ADM
+def _own_params(fn: FuncInfo) -> list[str]:
+    ps = fn.params
+    return ps[1:] if ps and ps[0] in ("self", "cls") else ps
 
 
 def check_adm(run: Run, prog: Program) -> None:
-    fn = prog.func(f"{BM}._get_distribution")
-    run.analysed(fn.qual)
-    cfg = CFG(fn.node, fn.file)
+    fn0 = prog.func(f"{BM}._get_distribution")
+    run.analysed(fn0.qual)
+    cfg = CFG(fn0.node, fn0.file)
     checks = nodes_with_call(cfg, lambda c: method_call(c, "self", "_check_request"))
     dists = nodes_with_call(cfg, lambda c: method_call(c, "self", "_get_power_distribution"))
     if not checks or not dists:
-        raise AnalysisError(f"{fn.qual}: _check_request/_get_power_distribution call sites not found")
+        raise AnalysisError(f"{fn0.qual}: _check_request/_get_power_distribution call sites not found")
     wit = cfg.path(cfg.entry, dists, avoid=checks)
-    run.check(wit is None, "C02.ADM", fn.qual, "self._check_request(...) before self._get_power_distribution(...)",
+    run.check(wit is None, "C02.ADM", fn0.qual, "self._check_request(...) before self._get_power_distribution(...)",
               "a request can be distributed without passing the bounds admission check",
-              node=fn.node, file=fn.file, path=cfg.describe_path(wit))
-    # an error result of the check is returned, not ignored
-    s = cfg.nodes[checks[0]].ast
-    name = u(s.targets[0]) if isinstance(s, ast.Assign) else None
-    ok = False
-    if name:
-        tests = [t for t in cfg.nodes if t.kind == "test" and u(t.ast) in (name, f"{name} is not None")]
-        if len(tests) == 1:
-            t = tests[0]
-            t_side = [m for m, lab in cfg.succ[t.id] if lab == "true"]
-            ok = bool(t_side) and isinstance(cfg.nodes[t_side[0]].ast, ast.Return) \
-                and u(cfg.nodes[t_side[0]].ast.value) == name and not any(  # type: ignore[union-attr]
-                    d in cfg.reachable(t_side) for d in dists)
-    run.check(ok, "C02.ADM", fn.qual, "if error: return error",
-              "a rejected request is still distributed", node=fn.node, file=fn.file)
-    # both the data passed to the check and to the distribution are the same
-    c1 = find_calls(fn.node, lambda c: method_call(c, "self", "_check_request"))[0]
-    c2 = find_calls(fn.node, lambda c: method_call(c, "self", "_get_power_distribution"))[0]
-    run.check([u(a) for a in c1.args] == [u(a) for a in c2.args], "C02.ADM", fn.qual,
-              "same (request, pairs_data) checked and distributed",
-              "the admission check and the distribution see different data", node=fn.node, file=fn.file)
+              node=fn0.node, file=fn0.file, path=cfg.describe_path(wit))
+    # per symbolic path: the distribution is reached only with the verdict of the check established
+    # as "no error"; with an error established the error is what is returned
+    fn = prep(prog, fn0.qual)
+    top = regions(fn.node)[0]
+    cp = _own_params(prog.func(f"{BM}._check_request"))
+    gp = _own_params(prog.func(f"{BM}._get_power_distribution"))
+    n_dist = 0
+    honoured = same = True
+    bad_path: list[str] = []
+    for p, _st in top.paths:
+        seq = [e for e in p.effects if e.kind == "call"]
+        chk = [i for i, e in enumerate(seq) if callee(e.node) == "self._check_request"]
+        dst = [i for i, e in enumerate(seq) if callee(e.node) == "self._get_power_distribution"]
+        verdicts = {}
+        for i in chk:
+            t = u(seq[i].node)
+            v = None
+            if p.outcome(("truthy", t)) is not None:
+                v = p.outcome(("truthy", t))
+            elif p.outcome(("is", frozenset({t, "None"}))) is not None:
+                v = not p.outcome(("is", frozenset({t, "None"})))
+            verdicts[i] = (t, v)            # v: True = error established, False = no error, None = not looked at
+        for d in dst:
+            n_dist += 1
+            before = [i for i in chk if i < d]
+            if not before or verdicts[before[-1]][1] is not False:
+                honoured = False
+                bad_path = bad_path or p.describe()
+                continue
+            c1 = positional(seq[before[-1]].node, cp)  # type: ignore[arg-type]
+            c2 = positional(seq[d].node, gp)  # type: ignore[arg-type]
+            if [u(c1.get(k)) for k in cp] != [u(c2.get(k)) for k in gp]:
+                same = False
+        for i in chk:
+            t, v = verdicts[i]
+            if v is True and (any(d > i for d in dst) or p.exit != "return" or u(p.ret) != t):
+                honoured = False
+                bad_path = bad_path or p.describe()
+    if n_dist == 0:
+        raise AnalysisError(f"{fn0.qual}: no symbolic path reaches the distribution")
+    run.check(honoured, "C02.ADM", fn0.qual, "if error: return error",
+              "a rejected request is still distributed", node=fn0.node, file=fn0.file, path=bad_path)
+    run.check(same, "C02.ADM", fn0.qual, "same (request, pairs_data) checked and distributed",
+              "the admission check and the distribution see different data", node=fn0.node, file=fn0.file)
 
 
 def check_adm_min(run: Run, prog: Program) -> None:
@@ -367,10 +475,17 @@ def check_adm_order(run: Run, prog: Program) -> None:
                       "(and, when not adjustable, inside the inclusion bounds)")
     if len(outs) < 10:
         raise AnalysisError(f"{fn.qual}: only {len(outs)} abstract paths")
-    # the bounds used are the aggregated ones of the same data, and rejection carries them
-    txt = u(fn.node).replace(" ", "")
-    run.check("bounds=self._get_bounds(pairs_data)" in txt and "power=request.power.as_watts()" in txt,
-              "C02.ADM", fn.qual, "bounds from _get_bounds(pairs_data); power from the request",
+    # the bounds used are the aggregated ones of the same data; the power compared is the request's
+    params = _own_params(fn)
+    if len(params) < 2:
+        raise AnalysisError(f"{fn.qual}: (request, pairs) parameters not found")
+    bcalls = find_calls(fn.node, lambda c: method_call(c, "self", "_get_bounds"))
+    gb = _own_params(prog.func(f"{BM}._get_bounds"))
+    wcalls = find_calls(fn.node, lambda c: method_call(c, None, "as_watts"))
+    ok = bool(bcalls) and bool(wcalls) and bool(gb) and all(
+        u(positional(c, gb).get(gb[0])) == params[1] for c in bcalls) and all(
+        u(c.func.value) == f"{params[0]}.power" for c in wcalls)  # type: ignore[attr-defined]
+    run.check(ok, "C02.ADM", fn.qual, "bounds from _get_bounds(pairs_data); power from the request",
               "the admission check does not compare the request's power with the bounds aggregated from "
               "the same component data", node=fn.node, file=fn.file)
 
